@@ -308,7 +308,7 @@ def run_all(cases, have_drv=True, workers=16):
 def run(res, tier, seed, search=False, have_drv=True):
     rnd = random.Random(seed)
     findings, _ = C.load_known_findings(res.pid)
-    cases = list(WITNESSES)
+    cases = list(WITNESSES) + C.load_case_corpus("C04", "sched")
     nrand = (300 if tier == "quick" else 12000) * (4 if search else 1)
     for i in range(nrand):
         cases.append(random_case(rnd, i, 0.25))
